@@ -772,10 +772,18 @@ func (r *Report) returnsOnlyUnder(rule, construct string, fn *ssa.Function, idx 
 			if exempt != nil && exempt(v) {
 				return
 			}
-			if q.Has(ValueFacts(v, pol)) {
+			if g, _ := e.guardedOnAllPaths(ret, q); g {
 				return
 			}
-			if g, _ := e.guardedOnAllPaths(ret, q); g {
+			// every way the returned value can have the polarity establishes the fact
+			here := FactsAt(ret)
+			all := true
+			for _, alt := range valueAlternatives(v, pol, 0) {
+				if !q.Has(append(append([]Fact{}, here...), alt...)) {
+					all = false
+				}
+			}
+			if all {
 				return
 			}
 			ok = false
